@@ -273,7 +273,11 @@ def make_stub(callee, caller_label):
         c.in_spec += 1
         try:
             r = callee.havoc(a)
-            post = callee.ensures(a, r)
+            # assumed facts must describe the state at THIS point: evaluate the clauses against frozen
+            # snapshots, so that a later in-place update of an argument / the result by the caller cannot
+            # change what was assumed
+            memo = {}
+            post = callee.ensures(freeze(a, memo), freeze(r, memo))
         finally:
             c.in_spec -= 1
         for name, f in post.items():
@@ -319,6 +323,39 @@ def _engine_fault(exc):
     return False
 
 
+def freeze(x, memo=None):
+    """Deep snapshot of the arrays inside x (tuples / lists / Args); other objects are shared."""
+    if memo is None:
+        memo = {}
+    if id(x) in memo:
+        return memo[id(x)]
+    if isinstance(x, SymArr):
+        y = x.copy()
+        y.storage.owner = x.storage.owner
+    elif isinstance(x, tuple):
+        y = tuple(freeze(v, memo) for v in x)
+    elif isinstance(x, list):
+        y = [freeze(v, memo) for v in x]
+    elif isinstance(x, Args):
+        y = Args({k: freeze(v, memo) for k, v in vars(x).items()})
+    else:
+        y = x
+    memo[id(x)] = y
+    return y
+
+
+class _LoopSpec:
+    def __init__(self, contract, a, label):
+        self.contract, self.a, self.label = contract, a, label
+
+    def state(self):
+        return self.contract.loop_state(self.a)
+
+    def invariant(self, j):
+        # the invariant talks about the loop state AS IT IS NOW: evaluate it on frozen snapshots
+        return self.contract.loop_invariant(self.a, j, [x.copy() for x in self.state()])
+
+
 class PathOutcome:
     def __init__(self):
         self.kind = None  # 'return' | 'raise'
@@ -358,6 +395,11 @@ def verify_path(contract, cfg, c, prop="", replay_hook=None):
             S.assume(contract.requires(a))
         finally:
             c.in_spec -= 1
+        from . import loops as _loops
+
+        _loops.LOOP_SPEC[0] = None
+        if hasattr(contract, "loop_invariant"):
+            _loops.LOOP_SPEC[0] = _LoopSpec(contract, a, label)
         input_storages = _input_storages(args, kwargs)
         self_obj = args[0] if (args and contract.frame_attrs is not None) else None
         attrs_before = dict(vars(self_obj)) if self_obj is not None else None
@@ -421,7 +463,11 @@ def verify_path(contract, cfg, c, prop="", replay_hook=None):
                 else:
                     c.ok(nm, kind="frame", txt="attributes written: %s" % changed)
             if contract.pure:
-                written = [st for st in input_storages if st.nwrites > 0]
+                allowed = set()
+                mw = getattr(contract, "may_write", None)
+                if mw is not None:
+                    allowed = {x.storage.id for x in mw(a)}
+                written = [st for st in input_storages if st.nwrites > 0 and st.id not in allowed]
                 nm = "%s:frame.no_write_to_inputs" % label
                 if written:
                     c.fail(nm, "wrote to argument storage: %s" % ", ".join(st.name for st in written), kind="frame")
@@ -434,6 +480,9 @@ def verify_path(contract, cfg, c, prop="", replay_hook=None):
                 raise SpecError("vacuous path: assumptions + path condition are unsatisfiable (%s)" % label)
     finally:
         P.restore()
+        from . import loops as _loops2
+
+        _loops2.LOOP_SPEC[0] = None
     return out
 
 
